@@ -604,3 +604,11 @@ impl<T: FrequentItemValue> FrequentItemsSketch<T> {
         })
     }
 }
+
+#[cfg(feature = "verif-hooks")]
+impl<T: Eq + Hash + Clone> FrequentItemsSketch<T> {
+    /// Verification hook: every slot of the counter map as (key if active, value, drift state).
+    pub fn verif_slots(&self) -> Vec<(Option<T>, u64, u16)> {
+        self.hash_map.verif_slots()
+    }
+}
